@@ -605,6 +605,12 @@ class ttensor:
                 f"samples had length {len(samples)} and modes {len(modes)}"
             )
 
+        mode_list = [int(mode) for mode in modes]
+        if any(not 0 <= mode < self.ndims for mode in mode_list) or len(
+            set(mode_list)
+        ) != len(mode_list):
+            raise ValueError("modes must be distinct and in [0, ndims)")
+
         full_samples = [np.array([], order=self.order)] * self.ndims
         for sample, mode in zip(samples, modes):
             if np.isscalar(sample):
